@@ -722,6 +722,47 @@ def w_classes(ctx: core.Ctx, arg):
             ctx.extra.setdefault('cannot_instantiate', []).append(f'{key}: generator produced no value ({sorted(gen_failed)[:2]})')
 
 
+def w_observations(ctx: core.Ctx, arg):  # noqa: ARG001
+    """Behaviour that was examined and is NOT demanded by the statement of C05: recorded (verified at run time), never a witness."""
+    from sdc11073.mdib import statecontainers as sc
+    from sdc11073.namespaces import default_ns_helper as nsh
+    from sdc11073.xml_types import addressing_types, mex_types, msg_types
+    obs = []
+    try:   # any-content members hand the caller's lxml elements to the written tree without copying them
+        epr = addressing_types.EndpointReferenceType()
+        epr.Address = 'urn:x'
+        epr.ReferenceParameters = [etree.Element('{urn:verif:foreign}P')]
+        first = epr.as_etree_node(nsh.WSA.tag('EndpointReference'), nsh.partial_map(nsh.WSA))
+        before = etree.tostring(first)
+        epr.as_etree_node(nsh.WSA.tag('EndpointReference'), nsh.partial_map(nsh.WSA))
+        if etree.tostring(first) != before:
+            obs.append('AnyEtreeNodeListProperty.update_xml_value moves the member elements into the new tree (no copy): writing the same '
+                       'EndpointReferenceType twice empties wsa:ReferenceParameters of the tree written first; a value read with from_node '
+                       'keeps live children of the source document, so writing it removes them from that document')
+    except Exception as ex:  # noqa: BLE001
+        obs.append(f'(observation 1 could not be evaluated: {ex!r})')
+    try:   # typed setter of MetricReportPart.MetricState
+        part = msg_types.MetricReportPart()
+        try:
+            part.MetricState = [sc.NumericMetricStateContainer(None)]
+        except ValueError:
+            obs.append('MetricReportPart.MetricState is declared with value_class=AbstractContextStateContainer: assigning a list of metric states '
+                       'raises ValueError (the library itself only appends); see witness schema.MetricState.type.xsi_type')
+    except Exception as ex:  # noqa: BLE001
+        obs.append(f'(observation 2 could not be evaluated: {ex!r})')
+    try:   # unknown dialect in received metadata
+        body = etree.fromstring('<b><wsx:Metadata xmlns:wsx="%s"><wsx:MetadataSection Dialect="urn:unknown"/></wsx:Metadata></b>' % xo.NS['wsx'])
+        try:
+            mex_types.Metadata.from_node(body)
+        except TypeError:
+            obs.append('mex_types.Metadata.from_node raises TypeError (unpacking None) for a MetadataSection with a dialect it does not know, '
+                       'instead of skipping it as the code below the unpacking intends (robustness of reading foreign input: property C13)')
+    except Exception as ex:  # noqa: BLE001
+        obs.append(f'(observation 3 could not be evaluated: {ex!r})')
+    ctx.extra['observations_not_counted_as_violations'] = obs
+    ctx.count('observations.evaluated', len(obs))
+
+
 def dispatch(ctx: core.Ctx, job):
     globals()[job[0]](ctx, job[1])
 
@@ -741,13 +782,15 @@ def run(ctx: core.Ctx):
     order = sorted(infos, key=lambda i: -len(_safe_props(i.cls)))
     njobs = 16 if ctx.quick else 48
     jobs = [['w_classes', {'classes': [i.key for i in order[k::njobs]], 'budget': budget, 'sample': k < 3}] for k in range(njobs)]
+    jobs.append(['w_observations', {}])
     core.fanout(ctx, MODULE, 'dispatch', jobs, timeout=ctx.pick(300.0, 2400.0))
     ctx.floor('classes.exercised', int(len(infos) * 0.9))
-    ctx.floor('schema.validated', ctx.pick(5000, 100000))
-    ctx.floor('roundtrip.canon_equal', ctx.pick(5000, 100000))
-    ctx.floor('rewrite.compared', ctx.pick(5000, 100000))
+    ctx.floor('schema.validated', ctx.pick(15000, 500000))
+    ctx.floor('roundtrip.canon_equal', ctx.pick(20000, 600000))
+    ctx.floor('rewrite.compared', ctx.pick(20000, 600000))
+    ctx.floor('lib_eq.evaluated', ctx.pick(5000, 150000))
     ctx.floor('absent.members_checked', 500)
-    ctx.floor('absent.implied_checked', 30)
+    ctx.floor('absent.implied_checked', 100)
     ctx.assumptions += [
         'values are drawn from the schema value space: facets (enumeration, minLength, bounds, minOccurs, required) come from my own index of the '
         'bundled xsd files; Decimals have <= 18 significant digits, timestamps are whole milliseconds, durations whole microseconds '
